@@ -1479,7 +1479,7 @@ func c15R3(c *Ctx) {
 
 func c15R4(c *Ctx) {
 	const R4 = "C15.R4.oci-list-tags"
-	c.Expect(R4, 3)
+	c.Expect(R4, 5)
 	// role: function of content/oci with a *resolver.Memory parameter and a func([]string) error parameter
 	// role: the function of content/oci that ranges over the tag map (map[string]Descriptor: the resolver's dump,
 	// obtained inside or handed in) and calls its func([]string) error parameter
@@ -1507,11 +1507,263 @@ func c15R4(c *Ctx) {
 		}
 		return false
 	})
-	if len(cands) != 1 {
-		c.LostAnchor(R4, fmt.Sprintf("tag lister (ranges over map[string]Descriptor and calls its func([]string) error parameter) in ~/content/oci (found %d)", len(cands)))
+	if len(cands) == 0 {
+		c.LostAnchor(R4, "tag lister (ranges over map[string]Descriptor and calls its func([]string) error parameter) in ~/content/oci")
 		return
 	}
-	f := cands[0]
+	isLister := map[*ssa.Function]bool{}
+	for _, f := range cands {
+		isLister[f] = true
+		c15CheckLister(c, R4, f)
+	}
+	c15TagsMethods(c, R4, isLister)
+}
+
+// c15TagsMethods: every exported Tags method of content/oci delivers exactly
+// the tags after `last`: by handing its own `last` and callback to a lister,
+// or by slicing a sorted tag list at the position found by a binary search of
+// `last` (pos+1 when found, pos when not found; 0 only when last == "").
+func c15TagsMethods(c *Ctx, R4 string, isLister map[*ssa.Function]bool) {
+	isStrSlice := func(t types.Type) bool {
+		sl, ok := types.Unalias(t).Underlying().(*types.Slice)
+		return ok && types.Identical(sl.Elem(), types.Typ[types.String])
+	}
+	n := 0
+	for _, m := range c.P.FuncsOfPkg("content/oci") {
+		if m.Parent() != nil || m.Name() != "Tags" || m.Signature.Recv() == nil || isLister[m] {
+			continue
+		}
+		var last, fnp *ssa.Parameter
+		for _, p := range m.Params[1:] {
+			if types.Identical(p.Type(), types.Typ[types.String]) {
+				last = p
+			}
+			if sig, ok := types.Unalias(p.Type()).Underlying().(*types.Signature); ok && sig.Params().Len() == 1 && isStrSlice(sig.Params().At(0).Type()) {
+				fnp = p
+			}
+		}
+		if last == nil || fnp == nil {
+			continue
+		}
+		n++
+		key := FnName(m) + "|tags-after-last"
+		lastAl, fnAl := Aliases(last), Aliases(fnp)
+		// (a) forwarded to a lister with the method's own last and callback
+		forwarded, direct := 0, 0
+		okFwd := true
+		for _, call := range Calls(m, func(string) bool { return true }) {
+			g := StaticCallee(call)
+			hasFn := false
+			for _, a := range call.Common().Args {
+				if fnAl[a] {
+					hasFn = true
+				}
+			}
+			if call.Common().Value != nil && fnAl[call.Common().Value] && !call.Common().IsInvoke() {
+				direct++
+				continue
+			}
+			if !hasFn {
+				continue
+			}
+			if g == nil || !isLister[g] {
+				okFwd = false
+				continue
+			}
+			forwarded++
+			hasLast := false
+			for _, a := range call.Common().Args {
+				if lastAl[a] {
+					hasLast = true
+				}
+			}
+			if !hasLast {
+				okFwd = false
+			}
+		}
+		switch {
+		case direct == 0 && forwarded > 0:
+			c.Check(R4, key, m.Pos(), okFwd, ifelse(okFwd, "the method hands its own `last` and callback to the tag lister", "the callback is handed to something other than the tag lister, or without the method's `last`"))
+			continue
+		case direct == 0:
+			c.Violation(R4, key, m.Pos(), "the Tags method neither calls its callback nor hands it to the tag lister")
+			continue
+		}
+		// (b) the method calls the callback itself: the list must be a sorted list sliced at the searched position
+		empty := c13FactEdgesOfConds(m, c13EmptyStringClass(lastAl))
+		verdict, why := "ok", ""
+		note := func(v, w string) {
+			if verdict == "ok" || (verdict == "undecided" && v == "violation") {
+				verdict, why = v, w
+			}
+		}
+		for _, call := range Calls(m, func(string) bool { return true }) {
+			if call.Common().IsInvoke() || !fnAl[call.Common().Value] {
+				continue
+			}
+			for _, lf := range c13Leaves(call.Common().Args[0]) {
+				v := lf.Val
+				if cst, isC := v.(*ssa.Const); isC && cst.Value == nil {
+					continue // nil list (nothing after `last`)
+				}
+				for { // look through copies
+					cl, isCall := v.(*ssa.Call)
+					if !isCall || !(CalleeName(cl) == "slices.Clone" || CalleeName(cl) == "builtin:append") {
+						break
+					}
+					v = cl.Call.Args[len(cl.Call.Args)-1]
+					if CalleeName(cl) == "slices.Clone" {
+						v = cl.Call.Args[0]
+					}
+				}
+				sl, isSlice := v.(*ssa.Slice)
+				if !isSlice {
+					note("undecided", "the list handed to the callback ("+describe(v)+") is neither built by the tag lister nor a slice of a sorted tag list")
+					continue
+				}
+				if sl.Low == nil {
+					if reach(m.Blocks[0], 0, sl, newCut().Edges(empty...)) {
+						note("violation", "the whole tag list is delivered although `last` is not empty")
+					}
+					continue
+				}
+				for _, st := range c13Leaves(sl.Low) {
+					x := st.Val
+					behind := func(edges []Edge) bool {
+						return len(edges) > 0 && !c13ChainReach(m.Blocks[0], 0, st.Edges, sl, newCut().Edges(edges...))
+					}
+					search := func(v ssa.Value) (call *ssa.Call, found ssa.Value) {
+						ex, ok := v.(*ssa.Extract)
+						if !ok || ex.Index != 0 {
+							return nil, nil
+						}
+						cl, ok := ex.Tuple.(*ssa.Call)
+						if !ok || CalleeName(cl) != "slices.BinarySearch" || len(cl.Call.Args) != 2 || !lastAl[cl.Call.Args[1]] {
+							return nil, nil
+						}
+						return cl, ResultOf(cl, 1)
+					}
+					if k, isC := c13ConstInt(x); isC {
+						if k != 0 || !behind(empty) {
+							note("violation", "the list starts at a constant index although `last` is not empty")
+						}
+						continue
+					}
+					if cl, found := search(x); cl != nil {
+						// start = pos: only where `last` was not found
+						var nf []Edge
+						if found != nil {
+							_, nf = BoolTests(m, Aliases(found))
+						}
+						if !behind(nf) {
+							note("violation", "the list starts at the searched position itself although `last` may have been found there: `last` would be listed again")
+						}
+						continue
+					}
+					if add, isAdd := x.(*ssa.BinOp); isAdd && add.Op == token.ADD {
+						if k, isC := c13ConstInt(add.Y); isC && k == 1 {
+							if cl, found := search(add.X); cl != nil {
+								var fe []Edge
+								if found != nil {
+									fe, _ = BoolTests(m, Aliases(found))
+								}
+								if !behind(fe) {
+									note("violation", "the list starts one past the searched position although `last` may not be a tag: the first tag after `last` is skipped")
+								}
+								continue
+							}
+						}
+					}
+					if len(Calls(m, func(n string) bool { return n == "slices.BinarySearch" })) > 0 {
+						note("violation", "the start index "+describe(x)+" is neither pos+1 (found) nor pos (not found) of the binary search of `last`")
+					} else {
+						note("undecided", "the start index "+describe(x)+" comes from a search shape that is not interpreted")
+					}
+				}
+				// the sliced list is sorted: a receiver field only ever assigned the lister's (sorted) output, or sorted here
+				if !c15SortedSource(c, sl.X, sl, isLister) {
+					note("undecided", "the sliced list is not known to be sorted (neither the tag lister's output nor sorted before use)")
+				}
+			}
+		}
+		switch verdict {
+		case "ok":
+			c.OK(R4, key, m.Pos(), "the callback receives the sorted tag list from the position right after `last` (pos+1 if found, pos if not)")
+		case "undecided":
+			c.Undecided(R4, key, m.Pos(), why)
+		default:
+			c.Violation(R4, key, m.Pos(), why)
+		}
+	}
+	if n == 0 {
+		c.LostAnchor(R4, "exported Tags methods of ~/content/oci")
+	}
+}
+
+// c15SortedSource: v is sorted when used at `at`: slices.Sort / sort.Strings
+// of it dominates, or it is a field load and every store to that field in the
+// package stores the slice a tag lister hands to its callback (the lister sorts
+// before calling back) or a slice sorted before the store.
+func c15SortedSource(c *Ctx, v ssa.Value, at ssa.Instruction, isLister map[*ssa.Function]bool) bool {
+	sortedAt := func(fn *ssa.Function, x ssa.Value, at ssa.Instruction) bool {
+		al := Aliases(x)
+		var sorts []ssa.CallInstruction
+		for _, s := range Calls(fn, func(n string) bool { return n == "slices.Sort" || n == "sort.Strings" }) {
+			if al[s.Common().Args[0]] || s.Common().Args[0] == x {
+				sorts = append(sorts, s)
+			}
+		}
+		return len(sorts) > 0 && MustPass(at, newCut().Calls(sorts))
+	}
+	if sortedAt(at.Parent(), v, at) {
+		return true
+	}
+	ld, ok := strip(v).(*ssa.UnOp)
+	if !ok || ld.Op != token.MUL {
+		return false
+	}
+	fa, ok := ld.X.(*ssa.FieldAddr)
+	if !ok {
+		return false
+	}
+	stores := 0
+	for _, g := range c.P.FuncsOfPkg("content/oci") {
+		okAll := true
+		AllInstrs(g, func(in ssa.Instruction) {
+			st, isStore := in.(*ssa.Store)
+			if !isStore {
+				return
+			}
+			f2, isFA := st.Addr.(*ssa.FieldAddr)
+			if !isFA || f2.Field != fa.Field || !types.Identical(f2.X.Type(), fa.X.Type()) {
+				return
+			}
+			stores++
+			if sortedAt(g, st.Val, st) {
+				return
+			}
+			// the parameter of a closure used as the callback of a tag lister
+			if prm, isParam := st.Val.(*ssa.Parameter); isParam && g.Parent() != nil {
+				for _, call := range Calls(g.Parent(), func(string) bool { return true }) {
+					if h := StaticCallee(call); h != nil && isLister[h] {
+						for _, a := range call.Common().Args {
+							if mc, isMC := a.(*ssa.MakeClosure); isMC && mc.Fn == prm.Parent() {
+								return
+							}
+						}
+					}
+				}
+			}
+			okAll = false
+		})
+		if !okAll {
+			return false
+		}
+	}
+	return stores > 0
+}
+
+func c15CheckLister(c *Ctx, R4 string, f *ssa.Function) {
 	fn := FnName(f)
 	cb := Calls(f, func(n string) bool { return strings.HasPrefix(n, "dyn:param:") })[0]
 	sorts := Calls(f, func(n string) bool { return n == "slices.Sort" || n == "sort.Strings" })
@@ -1676,6 +1928,10 @@ var c15Mutants = []Mutant{
 		Old:    "\t\tif !isReferrersFilterApplied(filtersHeader, filterTypeArtifactType) &&\n\t\t\t!isReferrersFilterApplied(filtersAnnotation, filterTypeArtifactType) {",
 		New:    "\t\tif filtersHeader != \"\" && !isReferrersFilterApplied(filtersHeader, filterTypeArtifactType) &&\n\t\t\t!isReferrersFilterApplied(filtersAnnotation, filterTypeArtifactType) {",
 		Expect: "C15.R3"},
+	{Name: "readonly-tags-by-search-skips-one", File: "content/oci/readonlyoci.go",
+		Old:    "\treturn listTags(s.tagResolver, last, fn)\n}\n\n// validateOCILayoutFile",
+		New:    "\tvar all []string\n\tlistTags(s.tagResolver, \"\", func(tags []string) error {\n\t\tall = tags\n\t\treturn nil\n\t})\n\tstart := 0\n\tif last != \"\" {\n\t\tpos, _ := slices.BinarySearch(all, last)\n\t\tstart = pos + 1\n\t}\n\tif start > len(all) {\n\t\tstart = len(all)\n\t}\n\treturn fn(all[start:])\n}\n\n// validateOCILayoutFile",
+		Expect: "C15.R4"},
 	{Name: "listtags-unsorted", File: "content/oci/readonlyoci.go",
 		Old: "\tslices.Sort(tags)\n\n\treturn fn(tags)", New: "\tif last != \"\" {\n\t\tslices.Sort(tags)\n\t}\n\n\treturn fn(tags)", Expect: "C15.R4"},
 	{Name: "listtags-last-inclusive", File: "content/oci/readonlyoci.go",
